@@ -118,7 +118,7 @@ Definition shape_ok (p : rproc) (o : obs) : bool :=
    else (ob_status o =? 0) && obs_check (pf_void p) 0 o).
 (* the one reply of the model that is not an accepted SUCCESS: MNT with an undecodable path => accept_stat GARBAGE_ARGS *)
 Definition rpc_garbage (o : obs) : bool := ob_rpc o =? 1000 + AS_GARBAGE_ARGS.
-Definition reply_ok (p : rproc) (o : obs) : bool := shape_ok p o || (is_mount p && rpc_garbage o).
+Definition reply_ok (p : rproc) (dec : bool) (o : obs) : bool := shape_ok p o || (negb dec && is_mount p && rpc_garbage o).
 
 Definition sizes_ok (o : obs) (ex : extras) : bool :=
   (len (ob_bytes o) <=? U32MAX) && forallb (fun e => len (de_name e) <=? U32MAX) (ob_entries o) &&
